@@ -1,5 +1,5 @@
 import sys, time, argparse
-sys.path.insert(0, '/verif/checker')
+import os; sys.path.insert(0, os.path.dirname(os.path.abspath(__file__)))
 from model import Facts
 from analyses import Effects
 from core import Report
